@@ -8,7 +8,8 @@ Inductive val :=
 | VQ (q : Q) | VB (b : bool) | VNone | VNaN
 | VTup (l : list val)
 | VEnum (name : string)
-| VErr (name : string).
+| VErr (name : string)
+| VRec (fields : list (string * val)).   (* objects: attribute name -> value *)
 
 Definition V2 (x y : Q) : val := VTup [VQ x; VQ y].
 Definition type_error : val := VErr "type".
@@ -88,6 +89,13 @@ Definition truth (a : val) : bool := match a with VB b => b | _ => false end.
 Definition vand (a b : val) : val := match a with VB true => b | VB false => VB false | _ => type_error end.
 Definition vor (a b : val) : val := match a with VB true => VB true | VB false => b | _ => type_error end.
 
+Fixpoint assoc_val (name : string) (fields : list (string * val)) : val :=
+  match fields with
+  | [] => VErr "AttributeError"
+  | (k, v) :: rest => if String.eqb k name then v else assoc_val name rest
+  end.
+Definition vattr (a : val) (name : string) : val :=
+  match a with VRec fields => assoc_val name fields | _ => VErr "AttributeError" end.
 Definition vidx (a : val) (i : nat) : val :=
   match a with VTup l => nth i l type_error | _ => type_error end.
 Definition vidx2 (a : val) (i j : nat) : val := vidx (vidx a i) j.
@@ -103,6 +111,22 @@ Definition vdot (a b : val) : val :=
          | x :: l', y :: r' => vadd (vmul x y) (go l' r')
          | _, _ => type_error
          end) l r
+  | _, _ => type_error
+  end.
+
+(* a[-1], a[:, -1] *)
+Definition vidx_last (a : val) : val := match a with VTup l => last l type_error | _ => type_error end.
+Definition vcol_last (a : val) : val :=
+  match a with VTup rows => VTup (map vidx_last rows) | _ => type_error end.
+(* observable effects (calls that append to the result list) are collected in program order *)
+Definition vcons (e tail : val) : val :=
+  match tail with VTup l => VTup (e :: l) | VNone => VTup [e] | other => other end.
+Definition vappend (a tail : val) : val :=
+  match a, tail with
+  | VTup l, VTup r => VTup (l ++ r)
+  | VTup l, VNone => VTup l
+  | VNone, t => t
+  | VErr e, _ => VErr e
   | _, _ => type_error
   end.
 
